@@ -119,6 +119,34 @@ fn handle(line: &str) -> String {
             )
             .as_bytes(),
         ),
+        "txtpp" => {
+            // txtpp <cwd> <base> <mode> <threads> <trailing 0|1> <recursive 0|1> <shell> <inputs...>
+            let cwd = ustr(t[1]).unwrap();
+            if std::env::set_current_dir(&cwd).is_err() {
+                return "ERR chdir".into();
+            }
+            let mode = match t[3] {
+                "Build" => txtpp::Mode::Build,
+                "InMemoryBuild" => txtpp::Mode::InMemoryBuild,
+                "Clean" => txtpp::Mode::Clean,
+                "Verify" => txtpp::Mode::Verify,
+                _ => return "ERR mode".into(),
+            };
+            let cfg = txtpp::Config {
+                base_dir: PathBuf::from(ustr(t[2]).unwrap()),
+                shell_cmd: ustr(t[7]).unwrap(),
+                inputs: t[8..].iter().map(|x| ustr(x).unwrap()).collect(),
+                recursive: t[6] == "1",
+                num_threads: t[4].parse().unwrap(),
+                mode,
+                verbosity: txtpp::Verbosity::Quiet,
+                trailing_newline: t[5] == "1",
+            };
+            match txtpp::Txtpp::run(cfg) {
+                Ok(()) => "OK".into(),
+                Err(_) => "ERR".into(),
+            }
+        }
         _ => "ERR unknown op".into(),
     }
 }
